@@ -47,7 +47,8 @@ Inductive label :=
 | L_osender_send_done | L_osender_defer_close_ch
 | L_ochread_read_flag | L_onclose_send_done | L_oncread_send_errs
 (* transport/system.go (the field System.fd) *)
-| L_sys_load_fd | L_sys_fd_nil.
+| L_sys_load_fd | L_sys_fd_nil
+| L_sys_rfd_lock | L_sys_rfd_unlock | L_sys_wfd_lock | L_sys_wfd_unlock | L_sys_fd_close.
 
 Definition all_labels : list label :=
   [ L_read_check_done; L_read_check_done2; L_read_send_errs; L_read_sleep; L_read_enqueue;
@@ -62,7 +63,8 @@ Definition all_labels : list label :=
     L_oclose_close_errs; L_oclose_read_flag; L_oclose_go_sender; L_oclose_close_ch; L_oclose_select;
     L_osender_send_done; L_osender_defer_close_ch;
     L_ochread_read_flag; L_onclose_send_done; L_oncread_send_errs;
-    L_sys_load_fd; L_sys_fd_nil ].
+    L_sys_load_fd; L_sys_fd_nil;
+    L_sys_rfd_lock; L_sys_rfd_unlock; L_sys_wfd_lock; L_sys_wfd_unlock; L_sys_fd_close ].
 
 Definition label_id (l : label) : nat :=
   match l with
@@ -79,7 +81,8 @@ Definition label_id (l : label) : nat :=
   | L_oclose_close_ch => 36 | L_oclose_select => 37 | L_osender_send_done => 38
   | L_osender_defer_close_ch => 39 | L_ochread_read_flag => 40 | L_onclose_send_done => 41
   | L_oncread_send_errs => 42 | L_sys_load_fd => 43 | L_sys_fd_nil => 44
-  | L_nclose_channel_close => 45
+  | L_nclose_channel_close => 45 | L_sys_rfd_lock => 46 | L_sys_rfd_unlock => 47
+  | L_sys_wfd_lock => 48 | L_sys_wfd_unlock => 49 | L_sys_fd_close => 50
   end.
 Definition label_eqb (a b : label) : bool := Nat.eqb (label_id a) (label_id b).
 
@@ -91,7 +94,8 @@ Definition CH_ERRS : chan := 2.     (* Channel.Errs *)
 Definition CH_NDONE : chan := 3.    (* netconf Driver.done *)
 Definition CH_NERRS : chan := 4.    (* netconf Driver.errs *)
 Definition CH_RDONE : chan := 5.    (* sendRPC's local `done` *)
-Definition NCHANS := 6.
+Definition CH_CTXDONE : chan := 6.  (* sendRPC's ctx.Done(), closed (once) by cancel() *)
+Definition NCHANS := 7.
 
 Definition V_IMPLLOCK : var := 0.   (* Transport.implLock *)
 Definition V_DONEONCE : var := 1.   (* Channel.doneOnce *)
@@ -99,7 +103,7 @@ Definition V_EXITEDONCE : var := 2. (* Channel.exitedOnce *)
 Definition V_NDONEONCE : var := 3.  (* netconf Driver.doneOnce *)
 Definition V_NET : var := 4.        (* the connection as seen by Impl.Read *)
 Definition V_TCLOSED : var := 5.    (* Impl.Close has been called *)
-Definition V_CTX : var := 6.        (* sendRPC's ctx cancelled *)
+Definition V_CTX : var := 6.        (* sendRPC's ctx cancelled (cancel() is idempotent: a Once) *)
 Definition NVARS := 7.
 
 Definition NET_QUIET := 0.   (* nothing to read: Impl.Read blocks *)
@@ -225,23 +229,30 @@ Definition rpc_code : code label :=
     Lb L_rpc_go_poller (IGo T_POLLER 1);
     (* 1  select { case err = <-d.errs: ; case <-timer.C: ; case data := <-done: } *)
     Lb L_rpc_select (ISelect [(Rcv CH_NERRS, 2); (Rcv CH_RDONE, 2)] (STimer 2));
-    (* 2  deferred cancel() *)
-    Lb L_rpc_cancel (IAtomicWrite V_CTX 1 3);
+    (* 2  deferred cancel(): closes ctx.Done() (once) *)
+    Lb L_rpc_cancel (IOnceClose V_CTX CH_CTXDONE 3);
     (* 3 *) Lb L_op_return IExit ].
 
+(* the polling goroutine of sendRPC.  `ctx.Err() != nil` holds exactly when ctx.Done() is closed:
+   a non-blocking receive from it.  [prefix = true] is the code before commit e29178e (final send
+   not watching the context), [prefix = false] the repaired code. *)
 Definition P_SEND := 3.
-Definition poller_code : code label :=
+Definition poller_code_gen (prefix : bool) : code label :=
   [ (* 0 *) Sil IIdle;
     (* 1  if ctx.Err() != nil { return } *)
-    Lb L_poll_ctx_err (IAtomic [([(V_CTX, 1)], [], 4); ([(V_CTX, 0)], [], 2)]);
+    Lb L_poll_ctx_err (ISelect [(Rcv CH_CTXDONE, 4)] (SDefault 2));
     (* 2  data = d.getMessage(m.MessageID): found (break) or not (decided by the environment);
           the 5 microsecond time.Sleep before the next round is fused into this step *)
     Lb L_poll_get_message (IEnv [P_SEND; 1]);
-    (* 3  done <- data *)
-    Lb L_poll_send_done (ISend CH_RDONE 4);
+    (* 3  repaired: select { case done <- data: case <-ctx.Done(): }     before: done <- data *)
+    Lb L_poll_send_done
+       (if prefix then ISend CH_RDONE 4
+        else ISelect [(Snd CH_RDONE, 4); (Rcv CH_CTXDONE, 4)] SBlock);
     (* 4  deferred close(done) *)
     Lb L_poll_defer_close_done (IClose CH_RDONE 5);
     (* 5 *) Sil IExit ].
+Definition poller_code : code label := poller_code_gen false.
+Definition prefix_poller_code : code label := poller_code_gen true.
 
 (* the environment: changes the connection while the transport is open and quiet *)
 Definition env_code (allowed : list nat) : code label :=
@@ -314,7 +325,7 @@ Definition exited0 (st : cstate) : nat := match st with StEOF => 1 | _ => 0 end.
 Definition rparked0 (st : cstate) : nat := match st with StIOErr => 1 | _ => 0 end.
 Definition parked0 (st : cstate) : nat := match st with StIOErr | StEOF => 1 | _ => 0 end.
 
-Definition sys_of (sc : scenario) : sys label :=
+Definition sys_gen (prefix : bool) (sc : scenario) : sys label :=
   let nc := is_nc (sc_kind sc) in
   let st := sc_state sc in
   mkSys
@@ -324,13 +335,18 @@ Definition sys_of (sc : scenario) : sys label :=
       (if nc then ncreader_code else if sc_user sc then consumer_code else absent);
       env_code (env_allowed st);
       (if nc && sc_user sc then rpc_code else absent);
-      (if nc && sc_user sc then poller_code else absent) ]
+      (if nc && sc_user sc then poller_code_gen prefix else absent) ]
     (mkState
        [ reader_pc0 st; 0; 0; (if nc then ncreader_pc0 st else 0); 0; 0; 0 ]
        [ rparked0 st; 0; 0; (if nc then parked0 st else 0); 0; 0; 0 ]
-       [ 0; exited0 st; 0; 0; 0; 0 ]
+       [ 0; exited0 st; 0; 0; 0; 0; 0 ]
        [ lock0 st; 0; exited0 st; 0; net0 st; 0; 0 ]
        0).
+
+(* the current code *)
+Definition sys_of (sc : scenario) : sys label := sys_gen false sc.
+(* the code before commit e29178e (sendRPC's poller) *)
+Definition prefix_sys_of (sc : scenario) : sys label := sys_gen true sc.
 
 Definition all_kinds := [CLI; NETCONF].
 Definition all_states :=
@@ -480,21 +496,27 @@ Definition old_closer_return (netconf : bool) : pc := if netconf then 11 else 9.
 Definition old_closers_returned (sc : scenario) (s : state) : bool :=
   exited_at (old_sys_of sc) s T_CLOSER1 && exited_at (old_sys_of sc) s T_CLOSER2.
 
-(* ---------- the System transport's `fd` field (transport/system.go), fixed code ----------
+(* ---------- the System transport's `fd` field (transport/system.go) ----------
 
    Impl.Read / Impl.Close are atomic in [sys_of]: the transport implementation is taken to be
-   thread-safe.  For the default System transport that is not quite so: System.Read evaluates the
-   plain field `t.fd` (`t.fd.Read(b)`) and System.Close assigns it (`t.fd = nil`), and
-   Transport.Close(true) — the forced path — calls System.Close WITHOUT implLock while the reader
-   may be in, or about to enter, System.Read.  [system_sys] is [sys_of] for CLI with these two plain
-   accesses made explicit: the load of the field before the blocking read, the store after the
-   descriptor has been closed. *)
-Definition V_FD : var := 7.
+   thread-safe.  The default System transport has a field `fd` that System.Read loads and
+   System.Close assigns, and Transport.Close(true) — the forced path — calls System.Close WITHOUT
+   implLock while the reader may be in, or about to enter, System.Read.
+
+   [prefix_system_sys]: the code before commit 985cf8a — `t.fd.Read(b)` / `err := t.fd.Close();
+   t.fd = nil` with the field accessed plainly.
+   [system_sys]: the current code — the field is only touched inside getFd / setFd under the mutex
+   `fdLock` (held just around the field access, never around the blocking call); Close does
+   `t.setFd(nil).Close()`: first the field is swapped to nil, then the old file is closed; a Read
+   that loads nil fails at once (a nil *os.File returns ErrInvalid). *)
+Definition V_FD : var := 7.        (* 0 = the open file, 1 = nil *)
+Definition V_FDLOCK : var := 8.
 Definition R_LOAD_FD := 14.
-Definition system_reader_code (tc : tcb) : code label :=
+
+Definition reader_body (tc : tcb) (after_lock : pc) : code label :=
   [ Lb L_read_check_done (ISelect [(Rcv CH_DONE, R_DEFER)] (SDefault R_LOCK));
-    Lb L_tread_lock (ILock V_IMPLLOCK R_LOAD_FD);
-    Lb L_tread_impl_read (IAtomic (impl_read_alts tc));
+    Lb L_tread_lock (ILock V_IMPLLOCK after_lock);
+    Lb L_tread_impl_read (IAtomic (impl_read_alts tc));       (* the blocking fd.Read(b) *)
     Lb L_tread_unlock (IUnlock V_IMPLLOCK R_ENQ);
     Lb L_tread_unlock (IUnlock V_IMPLLOCK R_SLEEP);
     Lb L_tread_unlock (IUnlock V_IMPLLOCK R_CHECK2_EOF);
@@ -505,11 +527,15 @@ Definition system_reader_code (tc : tcb) : code label :=
     Lb L_read_send_errs (ISelect [(Snd CH_ERRS, R_SLEEP); (Rcv CH_DONE, R_DEFER)] SBlock);
     Lb L_read_sleep (ISleep R_CHECK);
     Lb L_read_defer_exited (IOnceClose V_EXITEDONCE CH_EXITED R_EXIT);
-    Sil IExit;
-    (* 14  System.Read: the field t.fd is loaded (then the read on it blocks) *)
+    Sil IExit ].
+
+(* before 985cf8a *)
+Definition prefix_system_reader_code (tc : tcb) : code label :=
+  reader_body tc R_LOAD_FD ++
+  [ (* 14  System.Read: the field t.fd is loaded (then the read on it blocks) *)
     Lb L_sys_load_fd (IPlainRead V_FD [R_IMPL; R_IMPL]) ].
 
-Definition system_closer_code : code label :=
+Definition prefix_system_closer_code : code label :=
   [ Lb L_close_done_once (IOnceClose V_DONEONCE CH_DONE 1);
     Lb L_close_select (ISelect [(Rcv CH_EXITED, 2)] (STimer 5));
     Lb L_tclose_lock (ILock V_IMPLLOCK 3);
@@ -521,10 +547,54 @@ Definition system_closer_code : code label :=
     Lb L_sys_fd_nil (IPlainWrite V_FD 1 4);
     Lb L_sys_fd_nil (IPlainWrite V_FD 1 6) ].
 
+(* current code *)
+Definition system_reader_code (tc : tcb) : code label :=
+  reader_body tc R_LOAD_FD ++
+  [ (* 14  getFd: t.fdLock.Lock() *)
+    Lb L_sys_rfd_lock (ILock V_FDLOCK 15);
+    (* 15  return t.fd (still a plain access — now inside the critical section) *)
+    Lb L_sys_load_fd (IPlainRead V_FD [16; 17]);
+    (* 16  deferred t.fdLock.Unlock(); the file is open: go on to the blocking Read *)
+    Lb L_sys_rfd_unlock (IUnlock V_FDLOCK R_IMPL);
+    (* 17  deferred t.fdLock.Unlock(); nil file: Read returns ErrInvalid at once *)
+    Lb L_sys_rfd_unlock (IUnlock V_FDLOCK R_UNL_ERR) ].
+
+(* System.Close = t.setFd(nil).Close(), from program point b on, continuing at [next] *)
+Definition system_close_body (b next : pc) : code label :=
+  [ (* setFd: t.fdLock.Lock() *)
+    Lb L_sys_wfd_lock (ILock V_FDLOCK (b + 1));
+    (* old := t.fd; t.fd = fd *)
+    Lb L_sys_fd_nil (IPlainWrite V_FD 1 (b + 2));
+    (* deferred t.fdLock.Unlock() *)
+    Lb L_sys_wfd_unlock (IUnlock V_FDLOCK (b + 3));
+    (* (old).Close() *)
+    Lb L_sys_fd_close (IAtomicWrite V_TCLOSED 1 next) ].
+
+Definition S_RETURN := 6.
+Definition system_closer_code : code label :=
+  [ Lb L_close_done_once (IOnceClose V_DONEONCE CH_DONE 1);
+    Lb L_close_select (ISelect [(Rcv CH_EXITED, 2)] (STimer 5));
+    Lb L_tclose_lock (ILock V_IMPLLOCK 3);
+    Lb L_tclose_impl_close (ISleep 7);       (* the call t.Impl.Close(), graceful *)
+    Lb L_tclose_unlock (IUnlock V_IMPLLOCK S_RETURN);
+    Lb L_tclose_impl_close (ISleep 11);      (* the call t.Impl.Close(), forced *)
+    Lb L_close_return IExit ]
+  ++ system_close_body 7 4 ++ system_close_body 11 S_RETURN.
+
+Definition system_init : state :=
+  mkState [ R_CHECK; 0; 0; 0; 0; 0; 0 ] [ 0; 0; 0; 0; 0; 0; 0 ] [ 0; 0; 0; 0; 0; 0; 0 ]
+          [ 0; 0; 0; 0; NET_QUIET; 0; 0; 0; 0 ] 0.
+
 Definition system_sys (tc : tcb) (second : bool) : sys label :=
   mkSys
     [ system_reader_code tc; system_closer_code;
       (if second then system_closer_code else absent);
       absent; env_code [NET_DATA]; absent; absent ]
-    (mkState [ R_CHECK; 0; 0; 0; 0; 0; 0 ] [ 0; 0; 0; 0; 0; 0; 0 ] [ 0; 0; 0; 0; 0; 0 ]
-             [ 0; 0; 0; 0; NET_QUIET; 0; 0; 0 ] 0).
+    system_init.
+
+Definition prefix_system_sys (tc : tcb) (second : bool) : sys label :=
+  mkSys
+    [ prefix_system_reader_code tc; prefix_system_closer_code;
+      (if second then prefix_system_closer_code else absent);
+      absent; env_code [NET_DATA]; absent; absent ]
+    system_init.
